@@ -65,9 +65,9 @@ class Actor:
         self.dist = D.Normal(np.zeros((2, 1)), 1.0)
         self.rnd = rnd
 
-    def sample(self, stage, overwrite):
+    def sample(self, stage, overwrite, path=None):
         S, D, MM, Samples = _S()
-        kw = dict(samples_filename=self.path, distribution=self.dist, proposals=4, overwrite_existing_file=overwrite, disable_progressbar=True)
+        kw = dict(samples_filename=path or self.path, distribution=self.dist, proposals=4, overwrite_existing_file=overwrite, disable_progressbar=True)
         why = "valid"
         if stage == "b":
             why, bad = self.rnd.choice(INVALID_BEFORE)
@@ -97,11 +97,11 @@ class Actor:
         except Exception as e:
             return f"other:{type(e).__name__}", why
 
-    def open_write(self, overwrite):
+    def open_write(self, overwrite, path=None):
         S, D, MM, Samples = _S()
         try:
             with quiet():
-                h = Samples(self.path, mode="w", overwrite=overwrite)
+                h = Samples(path or self.path, mode="w", overwrite=overwrite)
                 h.close()
             return "ok"
         except FileExistsError:
@@ -169,6 +169,104 @@ def run_sequence(rnd, ops, kind, npy, tmp, tag):
     # a following valid run with consent must succeed (no handle left open)
     final = actor.sample("v", True)[0]
     return first[0], obs, final
+
+
+def run_paths_sequence(rnd, ops, kind, npy, tmp, tag):
+    """ops = [(path index, op)]: path 0 holds the file the sampler object produced first, path 1 does not exist yet"""
+    ext = "npy" if npy else "h5"
+    paths = [os.path.join(tmp, f"p{tag}_0.{ext}"), os.path.join(tmp, f"p{tag}_1.{ext}")]
+    for p in paths:
+        for q in (p, p + ".pkl"):
+            if os.path.exists(q):
+                os.remove(q)
+    actor = Actor(rnd, kind, paths[0], npy)
+    first = actor.sample("v", False)
+    obs = []
+
+    def snap():
+        return [(sha(p), sha(p + ".pkl")) for p in paths]
+
+    for pi, op in ops:
+        before = snap()
+        if op[0] == "S":
+            res, why = actor.sample(op[1], op[2] == "1", path=paths[pi])
+        elif op[0] == "W":
+            res, why = actor.open_write(op[1] == "1", path=paths[pi]), ""
+        else:
+            res, why = actor.other(op), ""
+        after = snap()
+        obs.append({"path": pi, "op": op, "why": why, "result": res, "before": before, "after": after})
+    return first[0], obs
+
+
+def paths_suite(rnd, N, findings):
+    sp = Suite("C11.paths", "one sampler object that has produced a file at path 0, then sequences of operations aimed at path 0 or at another path 1 (valid, "
+               "invalid-before-open, invalid-after-open sample() calls with and without consent, Samples(mode='w'), copy, deepcopy, pickle, load_results), HDF5 and "
+               "NPY(+sidecar): SHA-256 of both paths before/after every operation; a path at which no consenting operation was aimed must keep its bytes, whatever "
+               "was aimed at the other path; vs the model's per-path worlds; non-trivial = >= 1 operation aimed at path 1 while path 0 never received consent")
+    reqs, metas = [], []
+    with scratch() as tmp:
+        for i in range(N):
+            L = rnd.choice([1, 2, 3, 4, 5])
+            ops = []
+            for _ in range(L):
+                pi = rnd.choice([0, 1, 1])
+                pool = NO_CONSENT if (pi == 0 and rnd.random() < 0.8) else OPS
+                ops.append((pi, rnd.choice(pool)))
+            kind = "HMC" if i % 2 else "RWMH"
+            npy = (i // 2) % 2 == 1
+            first, obs = run_paths_sequence(rnd, ops, kind, npy, tmp, i % 4)
+            stim = {"sampler": kind, "backend": "npy" if npy else "h5", "ops": [f"{o}@{p}" for p, o in ops], "why": [o["why"] for o in obs]}
+            consent0 = any(p == 0 and o in ("Sv1", "Sa1", "W1") for p, o in ops)
+            sp.case(stim, nontrivial=(not consent0 and any(p == 1 for p, _ in ops)), sample={"ops": stim["ops"], "results": [o["result"] for o in obs]} if len(sp.samples) < 3 else None)
+            sp.count(f"backend={'npy' if npy else 'h5'}")
+            for p, o in ops:
+                sp.count(f"op={o}@{p}")
+            problems = []
+            if first != "ok":
+                problems.append(f"the initial run failed: {first}")
+            consented = [False, False]
+            for k, o in enumerate(obs):
+                if o["op"] in ("Sv1", "Sa1", "W1"):
+                    consented[o["path"]] = True
+                for q in (0, 1):
+                    if o["before"][q] != o["after"][q]:
+                        if q != o["path"]:
+                            problems.append(f"operation {k} ({o['op']}{' ' + o['why'] if o['why'] else ''}) aimed at path {o['path']} changed or deleted the "
+                                            f"{'file' if o['before'][q][0] != o['after'][q][0] else 'sidecar'} at path {q}")
+                        elif not consented[q] and o["before"][q] != (None, None):
+                            problems.append(f"operation {k} ({o['op']}{' ' + o['why'] if o['why'] else ''}) changed the existing file at path {q} without overwrite consent")
+                if o["result"].startswith("other"):
+                    problems.append(f"operation {k} ({o['op']}@{o['path']}) raised {o['result']}")
+                if problems:
+                    break
+            if problems:
+                findings.append(Finding("C11", problems[0], {"kind": "consent-paths", "op": problems[0].split("(")[1].split(")")[0].split(" ")[0] if "(" in problems[0] else "first"},
+                                        {"oracle": "hash", "stimulus": stim, "problems": problems, "observations": obs}))
+            reqs.append(f"c11.runat {int(npy)} {len(ops)} " + " ".join(f"{p} {o}" for p, o in ops))
+            metas.append((stim, obs, npy))
+    for (stim, obs, npy), ans in zip(metas, lean_batch(reqs)):
+        if not ans.startswith("ok "):
+            sp.disagree(stim, "model answer", ans, "driver rejected")
+            continue
+        prev = [("0", "1" if npy else "-"), ("-", "-")]
+        for k, (o, part) in enumerate(zip(obs, ans[3:].split(" | "))):
+            toks = part.split()
+            res, cur = toks[0], [(toks[1], toks[2]), (toks[3], toks[4])]
+            consent = o["op"] in ("Sv1", "Sa1", "W1")
+            ok = o["result"] == res
+            for q in (0, 1):
+                exists_real = o["after"][q][0] is not None
+                ok = ok and exists_real == (cur[q][0] != "-")
+                if not (consent and q == o["path"]):
+                    ok = ok and ((o["before"][q][0] != o["after"][q][0]) == (prev[q][0] != cur[q][0]))
+                    if npy:
+                        ok = ok and ((o["before"][q][1] != o["after"][q][1]) == (prev[q][1] != cur[q][1]))
+            prev = cur
+            if not ok:
+                sp.disagree(stim, {"op": f"{o['op']}@{o['path']}", "model": part}, {"result": o["result"], "before": o["before"], "after": o["after"]}, f"operation {k} differs from the model")
+                break
+    return sp
 
 
 def run(tier, seed):
@@ -243,7 +341,8 @@ def run(tier, seed):
                 st.disagree(stim, {"op": o["op"], "result": res, "file_changed": m_file_changed, "sidecar_changed": m_side_changed, "file_exists": fid != "-"},
                             o, f"operation {k} differs from the model")
                 break
-    return [st], findings
+    sp = paths_suite(rnd, 200 if thorough else 60, findings)
+    return [st, sp], findings
 
 
 def search(tier, seed, broken):
